@@ -15,7 +15,7 @@ def kind? : Sexp → Option Kind
   | .atom "const" => some .const | _ => none
 
 def op? : Sexp → Option Op
-  | .atom "assign" => some .assign | .atom "at" => some .at | .atom "ff" => some .ff | _ => none
+  | .atom "assign" => some .assign | .atom "at" => some .at | .atom "ff" => some .ff | .atom "for" => some .forT | _ => none
 
 def slice? : Sexp → Option (Option (Nat × Nat))
   | .atom "none" => some none
